@@ -375,6 +375,7 @@ def run(run: Run) -> int:
             cases.append(("L", parts))
     lines = ["me %s" % f2h(float(me))] + pyside.mass_table_lines(tbl)
     lines += ["edens %d %s" % (el.number, f2h(el.density)) for el in tbl if el.density is not None]
+    cases += cases[:120]                    # replay consistency: the first cases once more at the end
     lines += ["mix " + tokens(c) for c in cases]
     replies = run_driver("formula", lines)
     assert len(replies) == len(cases), (len(replies), len(cases))
